@@ -465,7 +465,7 @@ def run_S_and_gathers(pid, tier, seed):
     return cov, fs, searcher
 
 
-reg("C05", ["Props.C05_sequential_exclusive"] + COMMON_S_THEOREMS,
+reg("C05", ["Props.C05_sequential_exclusive", "Props.C05_inside_concurrent_executions"] + COMMON_S_THEOREMS,
     run_S_and_gathers, ASSUME_S)
 def run_S_and_G_C06(pid, tier, seed):
     """C06 = the scheduler picks by the table (slice S, model fed the documented priorities) + the table every
@@ -1596,7 +1596,7 @@ def run_H(pid, tier, seed):
                     kind = "counterexample" if pid == "C18" else "correspondence"
                     extra = sorted(set(rec["file"]) - set(m_file), key=int)
                     missing = sorted(set(m_file) - set(rec["file"]), key=int)
-                    sig = ("cache-file-holds-a-cache_deps_of-target" if extra and op.get("mode") == "deps" and set(map(int, extra)) & set(op["T"])
+                    sig = ("cache-file-holds-a-cache_deps_of-target" if extra and op.get("mode") == "deps" and set(map(int, extra)) & set(op.get("T") or [])
                            else "cache-file-content-differs")
                     failures.append(Failure(kind, sig, scen, dict(op=op, real_file=rec["file"], model_file=m_file, extra=extra, missing=missing), slice_="H"))
                     continue
@@ -1863,7 +1863,8 @@ reg("C15", ["Props.C15_no_state_but_setup", "Props.C15_next_call_depends_only_on
             "Props.C15_executor_single_use", "Props.C15_executor_run_is_complete", "Props.C15_executor_no_state_but_setup",
             "Props.C15_call_after_history_is_fresh", "Props.C11_setup_value_independent_of_arguments",
             "Props.C15_call_after_any_history", "Props.C15_closedSel_decidable", "Props.C11_sub_selection_same_setup_values"], run_H_and_composeprobe, ASSUME_H)
-reg("C18", ["Props.C18_restart_same", "Props.C18_restart_runs_only_uncached", "VM.denote_seeded", "Props.C18_cache_roundtrip"], run_H, ASSUME_H)
+reg("C18", ["Props.C18_restart_same", "Props.C18_restart_runs_only_uncached", "VM.denote_seeded", "Props.C18_cache_roundtrip",
+            "Props.C18_checkpoint_chain", "Props.C18_chain_runs_nothing_twice", "Props.C18_write_back_keeps", "Props.C18_chain_hypothesis_met"], run_H, ASSUME_H)
 
 
 # ---------------------------------------------------------------------------------------------
